@@ -5,22 +5,28 @@ use crate::refmodel::*;
 use serde_json::{json, Value};
 
 pub mod c01;
+pub mod c02;
 pub mod c03;
 pub mod c04;
 pub mod c05;
 pub mod c06;
 pub mod c07;
 pub mod c08;
+pub mod c09;
 pub mod c10;
 pub mod c11;
+pub mod c12;
+pub mod c13;
+pub mod c14;
 pub mod c15;
 pub mod c19;
 pub mod c20;
 pub mod c16;
+pub mod c17;
 pub mod c18;
 
 pub fn all() -> Vec<Property> {
-    vec![c01::property(), c03::property(), c04::property(), c05::property(), c06::property(), c07::property(), c08::property(), c10::property(), c11::property(), c15::property(), c16::property(), c18::property(), c19::property(), c20::property()]
+    vec![c01::property(), c02::property(), c03::property(), c04::property(), c05::property(), c06::property(), c07::property(), c08::property(), c09::property(), c10::property(), c11::property(), c12::property(), c13::property(), c14::property(), c15::property(), c16::property(), c17::property(), c18::property(), c19::property(), c20::property()]
 }
 
 /// Published perft node counts; validates the reference model itself (infrastructure check).
